@@ -1,2 +1,3 @@
 pub mod c12;
 pub mod e1;
+pub mod e3;
